@@ -38,6 +38,9 @@ func Gen(seed uint64, profile string) *Scenario {
 		sc.Dst = "/w/deep/er/dst"
 	case 2:
 		sc.Dst = "/w/alias/dst"
+	case 4:
+		// nothing else lives in the parent directory of the destination
+		sc.Dst = "/w/lone/ly/dst"
 	case 3:
 		// the destination itself is a symbolic link to a directory
 		sc.Dst = simkit.Pick(simkit.NewRNG(seed, "uw/dstlink"), []string{"/w/dstlink", "/w/dstlink/"})
@@ -83,7 +86,7 @@ func Gen(seed uint64, profile string) *Scenario {
 		}
 	case "hostile", "mixed":
 		if r.Chance(1, 12) {
-			sc.Allow = []string{simkit.Pick(r, []string{"/w/ext", "/w/ext/dir", "../victim", "../shared", "../shared", "../shared/", "."})}
+			sc.Allow = []string{simkit.Pick(r, []string{"/w/ext", "/w/ext/dir", "../victim", "../shared", "../shared", "../shared/", ".", "../../shared", "../../w/shared"})}
 		}
 		sc.SharedPacker = r.Chance(1, 3)
 		n := 1
@@ -261,6 +264,10 @@ func decorateOK(r *simkit.RNG, p []string, isDir bool) string {
 func entryTimes(r *simkit.RNG, e *Entry) {
 	e.Sec = 1000000000 + int64(r.Intn(700000000))
 	e.Nsec = simkit.Pick(r, nsecs)
+	if r.Chance(1, 12) {
+		// boundaries of the time scale: the epoch itself, its first second, 32-bit limits, far future, before 1970
+		e.Sec = simkit.Pick(r, []int64{0, 0, 1, 2147483647, 2147483648, 4102444800, 8000000000, -1, -86400})
+	}
 }
 
 // genWellformed draws entries and keeps only those the model classifies ok
@@ -269,6 +276,9 @@ func genWellformed(r *simkit.RNG, st *genState) Archive {
 	ar := Archive{Format: simkit.Pick(r, formats)}
 	ar.Reader.Chunks = simkit.Pick(r, chunkPlans)
 	n := r.Range(1, 12)
+	if r.Chance(1, 10) {
+		n = r.Range(13, 40) // more entries than small-slice special cases (sorts, pools) stay exact for
+	}
 	longName := r.Chance(1, 6)
 	unicode := r.Chance(1, 6)
 	repeats := r.Chance(1, 2)
@@ -506,6 +516,12 @@ func genHostile(r *simkit.RNG) Archive {
 				d.Mode = simkit.Pick(r, dirModes)
 				ar.Entries = append([]Entry{d}, ar.Entries...)
 				quiet = r.Chance(1, 2)
+			}
+			if !quiet && r.Chance(1, 4) {
+				// a hard link whose source is named by way of the two links, then a regular
+				// entry of the same name (writes through the shared inode if the link was made)
+				h := mk(simkit.Pick(r, []string{"state", "a/state"}), "hard", y+"/"+simkit.Pick(r, []string{"victim", "dst-evil/keep", "shared/keep"}), "")
+				ar.Entries = append(ar.Entries, h, mk(h.Name, "reg", "", "PWN-hard;"))
 			}
 			for k := r.Range(1, 3); k > 0 && !quiet; k-- {
 				out := simkit.Pick(r, []string{"dst-evil/pwn", "dst-evil/keep", "victim", "shared/new", "shared/keep", "ext/file", "ext/dir/f", "dstx", "dst-evil/", "shared/"})
